@@ -327,6 +327,61 @@ func (d *driver) path(rootTag string) []model.Val {
 	return p
 }
 
+// livePath walks the current heap from container r: a path of 1..3 segments that resolves (far indexes of long lists
+// included), or — one time in five — leaves the structure at its last segment.
+func (d *driver) livePath(r int) []model.Val {
+	var p []model.Val
+	cur := r
+	for depth := 0; depth < 3; depth++ {
+		c := d.cur[cur-1]
+		var nxt model.Val
+		miss := d.rng.Intn(5) == 0
+		if c.T == "L" {
+			n := len(c.E)
+			i := 0
+			switch {
+			case miss:
+				i = n + d.rng.Intn(2)
+			case n == 0:
+				return p
+			default:
+				i = []int{n - 1, n / 2, d.rng.Intn(n), d.rng.Intn(n)}[d.rng.Intn(4)]
+			}
+			p = append(p, model.Val{K: "idx", V: i})
+			if i < n {
+				nxt = c.E[i]
+			}
+		} else {
+			var present, absent []int
+			for k, v := range c.E {
+				if v.K == "absent" {
+					absent = append(absent, k+1)
+				} else {
+					present = append(present, k+1)
+				}
+			}
+			switch {
+			case miss && len(absent) > 0:
+				p = append(p, model.Val{K: "key", V: absent[d.rng.Intn(len(absent))]})
+			case len(present) == 0:
+				return p
+			default:
+				k := present[d.rng.Intn(len(present))]
+				p = append(p, model.Val{K: "key", V: k})
+				nxt = c.E[k-1]
+			}
+		}
+		if nxt.K != "ref" || d.rng.Intn(3) == 0 {
+			break
+		}
+		if t := d.cur[nxt.V-1].T; t != "L" && t != "O" {
+			break
+		}
+		cur = nxt.V
+	}
+	return p
+}
+
 func (d *driver) sortDomain(id int) bool {
 	e := d.cur[id-1].E
 	if len(e) == 0 {
@@ -416,7 +471,14 @@ func (d *driver) pickOp() (model.Op, bool) {
 	if d.rng.Intn(12) == 0 {
 		all := append(append([]int{}, lists...), objs...)
 		r := all[d.rng.Intn(len(all))]
-		switch d.rng.Intn(4) {
+		switch d.rng.Intn(6) {
+		case 4, 5:
+			if p := d.livePath(r); len(p) > 0 {
+				o := mk("GetTF", r)
+				o.Vs = p
+				return o, true
+			}
+			return mk("Text", r), true
 		case 3:
 			return mk("Text", r), true
 		case 0:
@@ -525,6 +587,9 @@ func (d *driver) pickOp() (model.Op, bool) {
 			return mk([]string{"FilterAll", "MapId"}[d.rng.Intn(2)], r), true
 		default:
 			p := d.path("L")
+			if lp := d.livePath(r); len(lp) > 0 && d.rng.Intn(2) == 0 {
+				p = lp
+			}
 			if d.rng.Intn(3) == 0 {
 				o := mk("UnsetTF", r)
 				o.Vs = p
@@ -637,6 +702,9 @@ func (d *driver) pickOp() (model.Op, bool) {
 		return mk("MapIdO", r), true
 	default:
 		p := d.path("O")
+		if lp := d.livePath(r); len(lp) > 0 && d.rng.Intn(2) == 0 {
+			p = lp
+		}
 		if d.rng.Intn(3) == 0 {
 			o := mk("UnsetTF", r)
 			o.Vs = p
@@ -696,6 +764,16 @@ func (d *driver) assign(o model.Op, panicked bool, ret any) model.Val {
 		d.bindNew(ret)
 	}
 	switch o.Op {
+	case "GetTF":
+		if isContainer(ret) {
+			if id, ok := d.real.Rev[ret]; ok {
+				return model.Val{K: "ref", V: id}
+			}
+		} else if v, ok := d.real.T.Abs(ret); ok {
+			return v
+		}
+		d.alien++
+		return model.Val{K: "alien"}
 	case "IndexOf":
 		if i, ok := ret.(int); ok {
 			return model.Val{K: "int", V: i}
@@ -1069,6 +1147,20 @@ func cmdDrive(args []string) int {
 				logged(model.Op{Op: "IndexOf", R: a, V: model.Val{K: "ref", V: inner}})
 				logged(model.Op{Op: "Contains", R: a, V: model.Val{K: "str", V: 2}})
 				logged(model.Op{Op: "Text", R: a, V: none})
+				// tree-form paths through far indexes
+				idx := func(i int) model.Val { return model.Val{K: "idx", V: i} }
+				key := func(k int) model.Val { return model.Val{K: "key", V: k} }
+				logged(model.Op{Op: "GetTF", R: a, V: none, Vs: []model.Val{idx(n - 1), idx(0)}})
+				logged(model.Op{Op: "GetTF", R: a, V: none, Vs: []model.Val{idx(n - 2), key(1)}})
+				logged(model.Op{Op: "GetTF", R: a, V: none, Vs: []model.Val{idx(n / 2)}})
+				logged(model.Op{Op: "GetTF", R: a, V: none, Vs: []model.Val{idx(n)}})
+				logged(model.Op{Op: "SetTF", R: a, V: model.Val{K: "int", V: 8}, Vs: []model.Val{idx(n - 1), idx(1)}})
+				logged(model.Op{Op: "SetTF", R: a, V: model.Val{K: "str", V: 1}, Vs: []model.Val{idx(n - 2), key(2)}})
+				logged(model.Op{Op: "SetTF", R: a, V: model.Val{K: "int", V: 6}, Vs: []model.Val{idx(n - 4)}})
+				logged(model.Op{Op: "UnsetTF", R: a, V: none, Vs: []model.Val{idx(n - 2), key(1)}})
+				logged(model.Op{Op: "UnsetTF", R: a, V: none, Vs: []model.Val{idx(130)}})
+				logged(model.Op{Op: "SetTF", R: a, V: model.Val{K: "int", V: 3}, Vs: []model.Val{idx(130)}})
+				logged(model.Op{Op: "GetTF", R: a, V: none, Vs: []model.Val{idx(n - 2), idx(0)}})
 				b := logged(model.Op{Op: "Clone", R: a, V: none}).V
 				if *derived == 0 {
 					logged(model.Op{Op: "Equals", R: a, J: b, V: none})
